@@ -66,6 +66,38 @@ class _Emu(E.Emu):
             return True
         return E.Emu.truth(self, v, st)
 
+    def branch(self, e, st):
+        # identity of a freshly constructed object with anything else is false
+        if isinstance(e, ast.Compare) and len(e.ops) == 1 and isinstance(e.ops[0], (ast.Is, ast.IsNot)):
+            a, b = self.ev(e.left, st), self.ev(e.comparators[0], st)
+            if self._fresh(a) != self._fresh(b) and a is not None and b is not None:
+                return [(st, isinstance(e.ops[0], ast.IsNot))]
+        return E.Emu.branch(self, e, st)
+
+    def _fresh(self, v):
+        """is v an object constructed on this path (an instantiation of a class the index knows)?"""
+        if isinstance(v, E.New):
+            return True
+        if isinstance(v, E.U):
+            m = re.match(r'^((?:[A-Za-z_]\w*\.)*)([A-Za-z_]\w*)%s$' % _CALL, v.path)
+            if m and m.group(2) in getattr(self.ix, 'classes_by_name', {}):
+                return True
+        return False
+
+    def kill(self, st, path):
+        # facts about values DERIVED from the attribute's entry value (`self.base.analyse_types(env).type.is_ptr`) stay true when the attribute is rebound:
+        # their text names the value, not the attribute (later reads of the attribute yield the text of what was stored)
+        keep = []
+        cur = st.attrs.get(path)
+        if not (isinstance(cur, E.U) and cur.path == path):       # (a placeholder `U(path)` would make such texts ambiguous: nothing is kept then)
+            for d in (st.assume, st.eqs):
+                for k in d:
+                    if k.startswith(path + '.') and '(' in k[len(path):]:
+                        keep.append((d, k, d[k]))
+        E.Emu.kill(self, st, path)
+        for d, k, v in keep:
+            d[k] = v
+
     def stmt(self, s, st, owner, depth):
         # `try: x = int(<C result text>) ... except ValueError: pass` - the compile-time conversion of a result text fails for everything but a literal:
         # the handler path (taken from the state at the `try`) is a path of its own; the base evaluator only follows the path without an exception
@@ -217,7 +249,7 @@ def multi_paste_paths(ix, c, xs, emu_cls=_Emu):
 
 def maker_methods(ix, c, x):
     """[(owner, method name)]: the non-emitting methods the class really has (the first definition along the MRO, own module only) that apply a
-    simple-coercion to something related to operand x"""
+    simple-coercion to anything (whether it concerns operand x is read off the paths of the method)"""
     res, names = [], set()
     for k in ix.mro(c):
         if k.module is not c.module or k.name in E.GENERIC_OWNERS:
@@ -228,27 +260,10 @@ def maker_methods(ix, c, x):
             names.add(mname)
             if mname.startswith('generate_') or mname in OTHER_EMITTERS:
                 continue
-            hit = False
-            for n in walk_no_nested(fn):
-                if isinstance(n, ast.Call) and isinstance(n.func, ast.Attribute) and n.func.attr in SIMPLE_COERCIONS:
-                    # the coerced value must have something to do with operand x: `self.x`, a parameter / local called x, or an alias of self.x
-                    used = {a.attr for a in ast.walk(n.func.value) if isinstance(a, ast.Attribute)} | {a.id for a in ast.walk(n.func.value) if isinstance(a, ast.Name)}
-                    if x in used or _aliases(fn, x) & used:
-                        hit = True
+            hit = any(isinstance(n, ast.Call) and isinstance(n.func, ast.Attribute) and n.func.attr in SIMPLE_COERCIONS for n in walk_no_nested(fn))
             if hit:
                 res.append((k, mname))
     return res
-
-
-def _aliases(fn, x):
-    """local names assigned from self.x (directly) in fn"""
-    out = set()
-    for n in walk_no_nested(fn):
-        if isinstance(n, ast.Assign) and isinstance(n.value, ast.Attribute) and isinstance(n.value.value, ast.Name) and n.value.value.id == 'self' and n.value.attr == x:
-            for t in n.targets:
-                if isinstance(t, ast.Name):
-                    out.add(t.id)
-    return out
 
 
 def _norm_key(k, finals, written):
@@ -280,10 +295,10 @@ def _norm_key(k, finals, written):
 
 
 class Row:
-    __slots__ = ('shared', 'eqs', 'simple', 'returns_self')
+    __slots__ = ('shared', 'eqs', 'simple', 'returns_self', 'finals')
 
 
-def analysis_rows(ix, k, mname, xs, emu_cls=_Emu):
+def analysis_rows(ix, k, mname, xs, emu_cls=_Emu, protocol_call=False):
     """paths of an analysis method / constructor -> [Row]: facts that carry over to code generation, and which operands are simple afterwards"""
     fn = k.methods[mname]
     emu = emu_cls(ix, k, code_names=(), inline=lambda owner, name: owner is k and not name.startswith('generate_'), unknown_loops='01', max_states=8000)
@@ -294,6 +309,12 @@ def analysis_rows(ix, k, mname, xs, emu_cls=_Emu):
         for x in xs:
             if x in params:
                 args[x] = E.U('self.' + x)
+    elif protocol_call:
+        # called the way the tree protocol calls it (`node.analyse_types(env)`): further parameters take their constant defaults
+        defaults = fn.args.defaults
+        for prm, d in zip(params[len(params) - len(defaults):], defaults):
+            if isinstance(d, ast.Constant) and prm not in ('self', 'env'):
+                args[prm] = d.value
     rows = []
     for st, v in emu.run(k, fn, args=args):
         if v is E.StopPath:
@@ -331,11 +352,16 @@ def analysis_rows(ix, k, mname, xs, emu_cls=_Emu):
                 simple = simple or E.concrete(val)
             r.simple[x] = simple
         shared = {}
-        for key, b in st.assume.items():
+        for key, b in list(st.assume.items()) + list(st.entry.items()):
             nk = _norm_key(key, finals, st.written)
             if nk is not None and nk not in shared:
                 shared[nk] = b
+        for x in xs:
+            # an operand the method converted to a Python object has a Python object type afterwards, whatever its type was before
+            if finals.get(x) and re.search(r'\.coerce_to_pyobject%s%s$' % (_CALL, _TP_CHAIN), finals[x]):
+                shared.setdefault('self.%s.type.is_pyobject' % x, True)
         r.shared = P._slim(shared)
+        r.finals = finals
         r.eqs = {}
         rows.append(r)
     return rows
@@ -360,17 +386,22 @@ def type_table2(ix):
 
 def _flags_feasible(assume, ttable):
     """are the assumed type flags of every `<path>.type` satisfiable by one PyrexTypes class?"""
-    groups = {}
+    groups, pyobj = {}, set()
     for k, v in assume.items():
         m = _TYPEFLAG.match(k)
         if m:
             groups.setdefault(m.group(1), {})[m.group(2)] = v
+        elif v is True and k.endswith(' Is py_object_type') and k[:-len(' Is py_object_type')].endswith('.type'):
+            pyobj.add(k[:-len(' Is py_object_type')])         # the singleton instance of PyObjectType
+            groups.setdefault(k[:-len(' Is py_object_type')], {})
     for tp, fl in groups.items():
         ok = False
         for name, (flags, has_signed, free) in ttable.items():
+            if tp in pyobj and name != 'PyObjectType':
+                continue
             if 'signed' in fl and not has_signed:
                 continue
-            if all(f in free or flags.get(f, False) == v for f, v in fl.items() if f != 'signed'):
+            if all((f in free and tp not in pyobj) or flags.get(f, False) == v for f, v in fl.items() if f != 'signed'):
                 ok = True
                 break
         if not ok:
@@ -379,7 +410,7 @@ def _flags_feasible(assume, ttable):
 
 
 def _feasible(d, ttable):
-    key = frozenset((k, v) for k, v in d.items() if _TYPEFLAG.match(k))
+    key = frozenset((k, v) for k, v in d.items() if _TYPEFLAG.match(k) or k.endswith(' Is py_object_type'))
     if key not in _FEAS_MEMO:
         if len(_FEAS_MEMO) > 200000:
             _FEAS_MEMO.clear()
@@ -501,7 +532,24 @@ def _repaste_class(r, ix, c, xs, ttable, rel, key_prefix=None):
             r.info('not decided: %s (made simple in several methods: %s)' % (key, ', '.join('%s.%s' % (k.name, mn) for k, mn, _ in relevant)))
             continue
         wk, wm, rows = relevant[0]
-        wit = repaste_witnesses(rows, cpaths, x, ttable)
+        wit = []
+        try:
+            for centry in sorted({cp[2] for cp in cpaths}):
+                # the analysis entry point that goes with this code generator: targets of assignments / del are analysed through analyse_target_types
+                aentry = wm
+                if wm == 'analyse_types':
+                    aentry = 'analyse_target_types' if centry in ('generate_assignment_code', 'generate_deletion_code') and 'analyse_target_types' in wk.methods else 'analyse_types'
+                ck = (wk.qual, aentry, tuple(xs), 'protocol')
+                if wm != 'analyse_types':
+                    erows = rows
+                else:
+                    if ck not in _ROWS_CACHE:
+                        _ROWS_CACHE[ck] = analysis_rows(ix, wk, aentry, xs, protocol_call=True)
+                    erows = _ROWS_CACHE[ck]
+                wit += repaste_witnesses(erows, [cp for cp in cpaths if cp[2] == centry], x, ttable)
+        except E.Unmodelled as e:
+            r.info('not decided: %s (%s.%s: %s)' % (key, wk.name, wm, e))
+            continue
         r.inst(key, sample='%s: %d multi-paste path(s) vs %d path(s) of %s.%s' % (key, len(cpaths), len(rows), wk.name, wm))
         seen = set()
         for (cass, ceqs, where, cnt, sample), both in wit:
